@@ -157,13 +157,51 @@ func (g *gen) expr(depth int) string {
 	}
 }
 
+// edit applies one small change to a text: a character deleted, inserted, replaced or doubled, two
+// neighbours swapped, the text cut short, or a bracketed / quoted part emptied of its closer.
+func (g *gen) edit(e string) string {
+	rs := []rune(e)
+	if len(rs) == 0 {
+		return g.pick("(", "]", "&", "`", "'", ".", "abs(", "a[", "$")
+	}
+	ins := []rune("()[]{}.,:|&*?!<>=-+/%@$'\"`\\ 0a_#~")
+	i := g.r.Intn(len(rs))
+	switch g.r.Intn(8) {
+	case 0: // delete
+		return string(rs[:i]) + string(rs[i+1:])
+	case 1: // insert
+		return string(rs[:i]) + string(ins[g.r.Intn(len(ins))]) + string(rs[i:])
+	case 2: // replace
+		rs[i] = ins[g.r.Intn(len(ins))]
+		return string(rs)
+	case 3: // double
+		return string(rs[:i+1]) + string(rs[i:])
+	case 4: // swap neighbours
+		if i+1 < len(rs) {
+			rs[i], rs[i+1] = rs[i+1], rs[i]
+		}
+		return string(rs)
+	case 5: // cut short
+		return string(rs[:i])
+	case 6: // append something that continues an expression
+		return e + g.pick(".", " |", " ||", "[", "[?", ".*", ", a", ")", " a", "(", " &&", ".[", "{", " ==", "[:", "`")
+	default: // drop the first closer after i
+		for j := i; j < len(rs); j++ {
+			if strings.ContainsRune(")]}'`\"", rs[j]) {
+				return string(rs[:j]) + string(rs[j+1:])
+			}
+		}
+		return string(rs[:i])
+	}
+}
+
 func recordMain(args []string) {
 	fs := flag.NewFlagSet("record", flag.ExitOnError)
 	outPath := fs.String("out", "events.ndjson", "event log")
 	n := fs.Int("n", 3000, "number of random events")
 	seed := fs.Int64("seed", 1, "seed")
 	corpus := fs.String("corpus", "", "testdata directory of the repository (its expressions are recorded too)")
-	mode := fs.String("mode", "general", "general | sort | unicode")
+	mode := fs.String("mode", "general", "general | sort | unicode | mutate")
 	maxLen := fs.Int("maxlen", 200, "largest array in sort mode")
 	fs.Parse(args)
 	f, err := os.Create(*outPath)
@@ -281,6 +319,7 @@ func recordMain(args []string) {
 		fmt.Printf("{\"written\":%d,\"skipped\":%d,\"panics\":%d}\n", written, skipped, panics)
 		return
 	}
+	mutate := *mode == "mutate"
 	for i := 0; i < *n; i++ {
 		doc := g.value(3)
 		if g.r.Intn(3) > 0 {
@@ -295,7 +334,15 @@ func recordMain(args []string) {
 			}
 			doc = m
 		}
-		emit(fmt.Sprintf("rnd%d.%d", *seed, i), g.expr(1+g.r.Intn(4)), doc)
+		e := g.expr(1 + g.r.Intn(4))
+		if mutate {
+			// a well-formed text with one to three small edits: most results are outside the
+			// grammar (C04: a syntax error and nothing else), some are other well-formed texts
+			for k := 1 + g.r.Intn(3); k > 0; k-- {
+				e = g.edit(e)
+			}
+		}
+		emit(fmt.Sprintf("rnd%d.%d", *seed, i), e, doc)
 	}
 	fmt.Printf("{\"written\":%d,\"skipped\":%d,\"panics\":%d}\n", written, skipped, panics)
 }
